@@ -252,6 +252,11 @@ impl PseudoFs {
         if ino == inode.parent {
             return;
         }
+        // A directory that still leads to other mount points must stay, otherwise its
+        // children become unreachable orphans (and a saved state can not be restored).
+        if !inode.children.load().is_empty() {
+            return;
+        }
 
         let parent = inodes.get(&inode.parent).unwrap();
         parent.remove_child(inode.clone());
